@@ -18,7 +18,7 @@ import (
 
 // Bearer describes how an Authorization header value is built.
 type Bearer struct {
-	Kind      string                 `json:"kind"`                 // "none" (no header) | "raw" | "jwt"
+	Kind      string                 `json:"kind"`                 // "none" (no header) | "raw" | "jwt" | "minted" (string made by the CLI / pkg/token, claims read from it)
 	Raw       string                 `json:"raw,omitempty"`        // Kind raw: the header value verbatim
 	RawShape  string                 `json:"raw_shape,omitempty"`  // Kind raw: SBadSegments | SBadHeader | SBadClaims | NoHeader
 	Alg       interface{}            `json:"alg,omitempty"`        // header "alg" member; nil = absent
@@ -53,7 +53,7 @@ func (b Bearer) Build(secret string) (string, bool) {
 	switch b.Kind {
 	case "none":
 		return "", false
-	case "raw":
+	case "raw", "minted":
 		return b.Raw, true
 	}
 	hdr := map[string]interface{}{"typ": "JWT"}
